@@ -26,6 +26,7 @@ vars == <<l, failed, viol, st, outs>>
 
 NewRun(e) == [kind |-> e.kind, ph |-> IF e.kind = "dec" THEN "dec" ELSE "enc",
               L1 |-> e.l1, L2 |-> e.l2, iid |-> e.iid,
+              pre |-> e.pre,              \* bytes that were already in the OwningIovec given to new_from_iovec
               input |-> e.input,          \* what is fed in the current phase
               plain |-> e.input,          \* the plain bytes of an "enc"/"rt" run
               pos |-> 0,                  \* bytes fed so far
@@ -38,7 +39,7 @@ NewRun(e) == [kind |-> e.kind, ph |-> IF e.kind = "dec" THEN "dec" ELSE "enc",
 CapViol(v, new) == v \cup {x \in new : Cardinality({y \in v : y.prop = x.prop}) < 25}
 
 Init == l = 1 /\ failed = FALSE /\ viol = {} /\ outs = [iid |-> 0, input |-> << >>, out |-> << >>] /\
-        st = [kind |-> "none", ph |-> "none", L1 |-> 1, L2 |-> 1, iid |-> 0, input |-> << >>,
+        st = [kind |-> "none", ph |-> "none", L1 |-> 1, L2 |-> 1, iid |-> 0, pre |-> << >>, input |-> << >>,
               plain |-> << >>, pos |-> 0, vis |-> << >>, D |-> 0, total |-> 0, stable |-> 0,
               live0 |-> 0, chunks0 |-> 0]
 
@@ -102,16 +103,21 @@ Drain(s, e) ==
 
 \* The complete output of the phase: everything drained, then what finish returned.
 FullOut(s, e) == SubSeq(s.vis, 1, s.D) \o e.rest
+\* ... and the codec's own part of it: new_from_iovec appends after the iovec's earlier contents
+Body(s, e) == LET o == FullOut(s, e) IN IF IsPrefixOf(s.pre, o) THEN SubSeq(o, Len(s.pre) + 1, Len(o)) ELSE o
+PreKept(s, e) == When(~IsPrefixOf(s.pre, FullOut(s, e)),
+                      V("C09", "the earlier contents of the OwningIovec given to new_from_iovec were lost or changed"))
 
 EncFinishCheck(s, e) ==
-  LET out == FullOut(s, e)
+  LET out == Body(s, e)
       ref == RefEncode(s.input, s.L1, s.L2, RADIX)
       prev == IF s.iid > 0 /\ outs.iid = s.iid THEN outs ELSE [iid |-> s.iid, input |-> s.input, out |-> out]
   IN   When(e.panic # "", V("C01", "panic in Encoder::finish: " \o e.panic))
   \cup (IF e.panic # "" THEN {} ELSE
           When(e.ok # 1 \/ e.pending = 1, V("C09", "finish left a placeholder pending / failed"))
      \cup When(e.fed # Len(s.input), V("C01", "harness did not feed the whole input"))
-     \cup When(~IsPrefixOf(s.vis, out), V("C09", "bytes visible before finish are not a prefix of the final output"))
+     \cup When(~IsPrefixOf(s.vis, FullOut(s, e)), V("C09", "bytes visible before finish are not a prefix of the final output"))
+     \cup PreKept(s, e)
      \cup When(out # ref, V("C07", "encoder output is not the canonical HCOBS encoding of the input"))
      \cup When(out # ref /\ s.D > 0,
                V("C09", "what was drained plus what finish returned is not the complete output (bytes lost, duplicated or reordered)"))
@@ -123,7 +129,7 @@ EncFinishCheck(s, e) ==
            When(~d.ok \/ d.out # s.input, V("C01", "the format's decoding of the encoder output is not the input"))))
 
 DecFinishCheck(s, e) ==
-  LET out == FullOut(s, e)
+  LET out == Body(s, e)
       d == RefDecode(s.input, s.L1, s.L2, RADIX)
   IN   When(e.panic # "", V("C07", "decoder panicked: " \o e.panic))
   \cup (IF e.panic # "" THEN {} ELSE
@@ -132,10 +138,25 @@ DecFinishCheck(s, e) ==
      \cup When(e.ok = 1 /\ d.ok /\ out # d.out, V("C07", "decoder output differs from the format's decoding"))
      \cup When(e.ok = 1 /\ d.ok /\ out # d.out /\ s.D > 0,
                V("C09", "what was drained plus what finish returned is not the complete output (bytes lost, duplicated or reordered)"))
-     \cup When(e.ok = 1 /\ ~IsPrefixOf(s.vis, out), V("C09", "bytes visible before finish are not a prefix of the decoder's result"))
+     \cup When(e.ok = 1 /\ ~IsPrefixOf(s.vis, FullOut(s, e)), V("C09", "bytes visible before finish are not a prefix of the decoder's result"))
+     \cup When(e.ok = 1, PreKept(s, e))
      \cup When(e.ok = 1 /\ e.fed # Len(s.input), V("C07", "harness did not feed the whole input"))
      \cup When(s.kind = "rt" /\ ~(e.ok = 1 /\ out = s.plain),
                V("C01", "decoding the encoder's output does not return the original bytes")))
+
+\* Decoder::take_iovec mid-stream: what was drained plus what is in the returned iovec is what was decoded so far -
+\* a prefix of the format's decoding of the whole input, when that exists, and it starts with everything seen before
+TakeCheck(s, e) ==
+  LET out == Body(s, e)
+      d == RefDecode(s.input, s.L1, s.L2, RADIX)
+  IN   When(e.panic # "" \/ e.ok # 1, V("C09", "take_iovec failed: " \o e.panic \o e.err))
+  \cup (IF e.panic # "" \/ e.ok # 1 THEN {} ELSE
+          When(~IsPrefixOf(s.vis, FullOut(s, e)), V("C09", "bytes visible before take_iovec are not a prefix of what it returned"))
+     \cup PreKept(s, e)
+     \cup When(e.pending = 1, V("C09", "the decoder's iovec has a pending backpatch (non-zero lag)"))
+     \cup When(d.ok /\ ~IsPrefixOf(out, d.out), V("C09", "bytes decoded so far are not a prefix of the decoding of the whole input"))
+     \cup When(d.ok /\ s.pos = Len(s.input) /\ Len(out) + 1 < Len(d.out),
+               V("C09", "the whole input was fed but more than the one held-back byte is missing from the decoder's iovec")))
 
 \* the arena moved on (flush_cache): nothing observable may change
 Flush(s, e) ==
@@ -149,6 +170,7 @@ Step(s, e) ==
     [] e.ev = "drain" -> Drain(s, e)
     [] e.ev = "finish" ->
          [st |-> s, bad |-> IF s.ph = "enc" THEN EncFinishCheck(s, e) ELSE DecFinishCheck(s, e)]
+    [] e.ev = "take_iovec" -> [st |-> s, bad |-> TakeCheck(s, e)]
     [] e.ev = "switch" ->
          [st |-> [s EXCEPT !.ph = "dec", !.input = e.dinput, !.pos = 0, !.vis = << >>, !.D = 0,
                            !.total = 0, !.stable = 0],
@@ -172,7 +194,7 @@ Next ==
           /\ failed' = (failed \/ r.bad # {})
           /\ viol' = CapViol(viol, {[run |-> e.run, line |-> l, prop |-> w[1], what |-> w[2]] : w \in r.bad})
           /\ outs' = IF e.ev = "finish" /\ st.ph = "enc" /\ e.panic = "" /\ st.iid > 0 /\ outs.iid # st.iid
-                     THEN [iid |-> st.iid, input |-> st.input, out |-> FullOut(st, e)]
+                     THEN [iid |-> st.iid, input |-> st.input, out |-> Body(st, e)]
                      ELSE outs
 
 Spec == Init /\ [][Next]_vars
